@@ -48,15 +48,17 @@ static void havoc_ghosts(void)
    && __CPROVER_rw_ok(y, DIM * sizeof(double)) && __CPROVER_rw_ok(s, DIM * sizeof(double)) \
    && __CPROVER_rw_ok(cst, DIM * sizeof(int)) && __CPROVER_rw_ok(rst, DIM * sizeof(int)) \
    && feastol > 0.0 && eps > 0.0)
-/* stored sparse vector: n entries in two fresh parallel arrays */
+/* stored sparse vector: n <= CAP entries in two parallel arrays (typed automatic arrays of the harness, like x..rst) */
 #define SV_WF(idx, val, n) (0 <= (n) && (n) <= CAP \
-   && __CPROVER_is_fresh(idx, ((n) > 0 ? (n) : 1) * sizeof(int)) && __CPROVER_is_fresh(val, ((n) > 0 ? (n) : 1) * sizeof(double)))
+   && __CPROVER_rw_ok(idx, CAP * sizeof(int)) && __CPROVER_rw_ok(val, CAP * sizeof(double)))
+#define ARR_OK(p, n, T) __CPROVER_rw_ok(p, (n) * sizeof(T))
+/* executed by every harness before the call */
+#define PS_GHOST_PTRS gp_x = x; gp_y = y; gp_s = s; gp_r = r; gp_cst = cst; gp_rst = rst
 /* the ghost column / row and the values found there */
 #define GHOST_COL (0 <= g_kc && g_kc < nC && SAME(v_x, x[g_kc]) && SAME(v_r, r[g_kc]) && v_cs == cst[g_kc])
 #define GHOST_ROW (0 <= g_kr && g_kr < nR && SAME(v_y, y[g_kr]) && SAME(v_s, s[g_kr]) && v_rs == rst[g_kr])
 #define COL_UNCHANGED (SAME(x[g_kc], v_x) && SAME(r[g_kc], v_r) && cst[g_kc] == v_cs)
 #define ROW_UNCHANGED (SAME(y[g_kr], v_y) && SAME(s[g_kr], v_s) && rst[g_kr] == v_rs)
-#define GP_ALL gp_x, gp_y, gp_s, gp_r, gp_cst, gp_rst, gp_i1, gp_i2, gp_i3, gp_d1, g_out, g_out2
 #define W(a) __CPROVER_object_whole(a)
 
 /* first-match lookup / membership in a stored sparse vector of at most 8 entries, written out
